@@ -397,6 +397,8 @@ type BlockHeaderSpec struct {
 	Props     []byte
 	ExtraPad  int  // additional groups of four zero bytes
 	PadByte   byte // value of padding bytes (0 legal)
+	Comp63    bool // write 2^63 as compressed size (out of range for the format)
+	Unc63     bool // write 2^63 as uncompressed size
 }
 
 func LZMA2BlockHeader(comp, unc int64, dictCode byte) BlockHeaderSpec {
@@ -406,11 +408,17 @@ func LZMA2BlockHeader(comp, unc int64, dictCode byte) BlockHeaderSpec {
 func (s BlockHeaderSpec) Bytes() []byte {
 	b := []byte{0, 0}
 	fl := s.FlagsOr
-	if s.Comp >= 0 {
+	if s.Comp63 {
+		fl |= 0x40
+		b = putVarint(b, 1<<63)
+	} else if s.Comp >= 0 {
 		fl |= 0x40
 		b = putVarint(b, uint64(s.Comp))
 	}
-	if s.Unc >= 0 {
+	if s.Unc63 {
+		fl |= 0x80
+		b = putVarint(b, 1<<63)
+	} else if s.Unc >= 0 {
 		fl |= 0x80
 		b = putVarint(b, uint64(s.Unc))
 	}
